@@ -55,6 +55,7 @@ def snapshot(graph, main_restrictions):
             "setup": [[index_of.get(id(p), -1), sorted(object_ref(o) for o in objs)] for p, objs in node.setup_nodes.items()],
             "cleanup": [[index_of.get(id(c), -1), sorted(object_ref(o) for o in objs)] for c, objs in node.cleanup_nodes.items()],
             "bridged": [index_of.get(id(b), -1) for b in node.bridged_nodes],
+            "marker": node.params.get("kill_vm_gracefully"),
             "registers": [id(node._picked_by_setup_nodes), id(node._dropped_setup_nodes),
                           id(node._picked_by_cleanup_nodes), id(node._dropped_cleanup_nodes)],
             "incompatible_workers": sorted(node.incompatible_workers),
@@ -229,6 +230,18 @@ def oracle_c09(eager, eager2, lazy, case):
     def add(mechanism, message):
         findings.append((mechanism, message))
     by_i = {n["i"]: n for n in eager["nodes"]}
+    # (0) a key=value given for the whole run (a parameter the test configurations define themselves) reaches every parsed test
+    wanted = (case.get("params") or {}).get("kill_vm_gracefully")
+    if wanted is not None:
+        for stage, snap in (("eager", eager), ("lazy", lazy)):
+            for node in (snap or {}).get("nodes", []):
+                if node["shared_root"]:
+                    continue
+                counters["override_checks"] += 1
+                if node.get("marker") != wanted:
+                    add("a parameter given for the whole run did not reach a parsed test",
+                        f"[{stage}] {node['name'][-90:]}: kill_vm_gracefully={node.get('marker')!r}, given {wanted!r}")
+                    break
     # (a) per-worker copies equivalent up to excluded tests
     canon = canonical(eager)
     workers = sorted(canon)
